@@ -156,12 +156,13 @@ type htmlInfo struct {
 	text      string // concatenated text outside raw-text elements, character references decoded
 	startTags int
 	starts    map[string]int
+	defaults  map[string]int // tag/attr of attributes that have a default value rule, with a non-empty value
 }
 
 var reAttr = regexp.MustCompile(`(?s)[\s/]+([^\s/>=]+)(\s*=\s*("[^"]*"|'[^']*'|[^\s>]+))?`)
 
 func scanHTML(src string) htmlInfo {
-	inf := htmlInfo{endTags: map[string]int{}, docStart: map[string]int{}, unquoted: map[string]int{}, quoted: map[string]int{}, starts: map[string]int{}}
+	inf := htmlInfo{endTags: map[string]int{}, docStart: map[string]int{}, unquoted: map[string]int{}, quoted: map[string]int{}, starts: map[string]int{}, defaults: map[string]int{}}
 	z := html.NewTokenizer(strings.NewReader(src))
 	var sb strings.Builder
 	raw := ""
@@ -195,6 +196,14 @@ func scanHTML(src string) htmlInfo {
 					continue
 				}
 				key := n + "/" + strings.ToLower(m[1])
+				if v := strings.Trim(m[3], "\"' \t\n\r\f"); v != "" {
+					switch strings.ToLower(m[1]) {
+					case "type", "method", "enctype", "colspan", "rowspan", "shape", "span", "media":
+						if !(n == "meta" || n == "a" || n == "link" && strings.ToLower(m[1]) == "type" && !strings.EqualFold(v, "text/css")) {
+							inf.defaults[key]++
+						}
+					}
+				}
 				if strings.HasPrefix(m[3], "\"") || strings.HasPrefix(m[3], "'") {
 					inf.quoted[key]++
 				} else {
@@ -275,6 +284,18 @@ func checkHTMLKeep(c Case) (out string, err error) {
 		for key, k := range ou.unquoted {
 			if k > in.unquoted[key] {
 				return out, show("KeepQuotes: attribute %s is written without quotes %d times, %d times in the input", key, k, in.unquoted[key])
+			}
+		}
+	}
+	if c.Opts.HTMLKeepDefaultAttrs {
+		for key, k := range in.defaults {
+			tag := key[:strings.IndexByte(key, '/')]
+			removed := in.starts[tag] - ou.starts[tag]
+			if removed < 0 {
+				removed = 0
+			}
+			if ou.defaults[key] < k-removed {
+				return out, show("KeepDefaultAttrVals: %d of %d %s attributes are left", ou.defaults[key], k, key)
 			}
 		}
 	}
